@@ -5,11 +5,14 @@
    from the source (Gen/StackIdx.v, Gen/MlinkFacts.v, Gen/MlinkList.v, Gen/MlinkQueue.v); the
    references are Mlink/MlinkSpec.v (list + cursor positions At i | Stale; FIFO list) and the
    [sastep] part of Stack/StackModel.v (LIFO list).  Elements are any type T with its Go zero
-   value; Find/Each callbacks are any pure function T -> bool. *)
+   value; Find/Each callbacks are any pure function T -> bool.  Cursor is a value type: histories
+   include struct copies (OCopy), struct assignment (OAssign) and cursors that were never
+   positioned (ONilCursor: a nil pointer or the zero Cursor). *)
 From Coq Require Import ZArith List.
 Import ListNotations.
 From Mds Require Import Mlink.MlinkModel Mlink.MlinkSpec Mlink.MlinkBasics Mlink.MlinkChain
-  Mlink.MlinkProofs Mlink.MlinkQueueProofs Mlink.MlinkSpecFacts Stack.StackModel Stack.StackProofs.
+  Mlink.MlinkProofs Mlink.MlinkQueueProofs Mlink.MlinkSpecFacts Mlink.MlinkProofsInt
+  Stack.StackModel Stack.StackProofs Stack.StackProofsInt Gen.StackIdx Gen.MlinkList.
 
 (* ---- stack.Stack ---- *)
 
@@ -25,6 +28,22 @@ Example C10_stack_lifo_ex :
   srun Z 0%Z [] [SPush Z 1%Z; SPush Z 2%Z; SPeek Z 1%Z; SPop Z; SEach Z (fun _ => true); SPeek Z (-1)%Z; SSlice Z]
   = [TUnit Z; TUnit Z; TValBool Z 1%Z true; TValBool Z 2%Z true; TList Z [1%Z]; TPanic Z; TList Z [1%Z]].
 Proof. vm_compute. reflexivity. Qed.
+
+(* Machine ints.  Peek's index len-1-n is the only arithmetic on a caller's int.  Evaluated with
+   64-bit wrap-around (peek_w wrap64) it gives, for EVERY 64-bit n -- the minimum int, whose
+   negation overflows, included -- and every slice length below 2^63, exactly the result of the
+   unbounded-Z model used above: same value, same flag, same index panic. *)
+Theorem C10_stack_peek_int64 : forall (T : Type) (zero : T) (l : list T) (n : Z),
+  StackProofsInt.int64 n -> (zlen T l < 2 ^ 63)%Z ->
+  peek_w T zero StackProofsInt.wrap64 n l = peek T zero n l.
+Proof. exact peek_int64. Qed.
+Print Assumptions C10_stack_peek_int64.
+
+Example C10_stack_peek_int64_ex :
+  StackProofsInt.int64 (- 2 ^ 63)%Z /\ (zlen Z [1;2;3]%Z < 2 ^ 63)%Z /\
+  peek_w Z 0%Z StackProofsInt.wrap64 (- 2 ^ 63)%Z [1;2;3]%Z = SPanic /\
+  StackProofsInt.wrap64 (peek_idx (- 2 ^ 63) 3)%Z = (-9223372036854775806)%Z.
+Proof. vm_compute. repeat split; intros; discriminate. Qed.
 
 (* ---- mlink.List through any number of cursors ---- *)
 
@@ -42,6 +61,37 @@ Example C10_list_refinement_ex :
   = [RUnit; RUnit; RUnit; RUnit; RVal 2%Z; RVal 3%Z; RPanic InvalidCursor; RUnit; RUnit; RUnit; RList [1;7]%Z; RInt 2%Z].
 Proof. vm_compute. reflexivity. Qed.
 
+(* copies are independent values: #1 is a copy of #0 taken at index 0; advancing #0 leaves #1
+   where it was; removing through #1 makes #0 (now just after the removed element) stale and a
+   copy of it (#2) equally stale; assigning #1 to #0 repositions #0; #3 was never positioned *)
+Example C10_list_refinement_copies_ex :
+  run Z 0%Z (init Z 0%Z)
+    [OAt 0; OAdd 0 [1;2;3]%Z; OAt 0; OCopy 1; ONext 1; OGet 1; OGet 2; ORemove 2; OCopy 1; OGet 1; OGet 3;
+     OAssign 1 2; OGet 1; ONilCursor; OGet 4; OAdd 4 []; OAdd 4 [5]%Z; OCopy 4; OAtEnd 5; OEach (fun _ => true)]
+  = [RUnit; RUnit; RUnit; RUnit; RBool true; RVal 2%Z; RVal 1%Z; RVal 1%Z; RUnit; RPanic InvalidCursor; RPanic InvalidCursor;
+     RUnit; RVal 2%Z; RUnit; RPanic NilDeref; RUnit; RPanic NilDeref; RUnit; RPanic NilDeref; RList [2;3]%Z].
+Proof. vm_compute. reflexivity. Qed.
+
+(* The documentation's own before/after pictures (mlink/list.go), run on the heap model. *)
+Theorem C10_doc_pictures :
+  (* Set:      [1,2,3], c at 1, c.Set(9)      -> [1,9,3], c at 1 *)
+  run Z 0%Z (init Z 0%Z) [OEnd; OAdd 0 [1;2;3]%Z; OAt 1; OSet 1 9%Z; OEach (fun _ => true); OGet 1]
+    = [RUnit; RUnit; RUnit; RUnit; RList [1;9;3]%Z; RVal 9%Z] /\
+  (* Push:     [1,2,3], c at 0, c.Push(4)     -> [4,1,2,3], c at 0 (the new item), old value at c.Next() *)
+  run Z 0%Z (init Z 0%Z) [OEnd; OAdd 0 [1;2;3]%Z; OAt 0; OPush 1 4%Z; OEach (fun _ => true); OGet 1; ONext 1; OGet 1]
+    = [RUnit; RUnit; RUnit; RUnit; RList [4;1;2;3]%Z; RVal 4%Z; RBool true; RVal 1%Z] /\
+  (* Add:      [1,2,3], c at 0, c.Add(4)      -> [4,1,2,3], c at 1 (the original item) *)
+  run Z 0%Z (init Z 0%Z) [OEnd; OAdd 0 [1;2;3]%Z; OAt 0; OAdd 1 [4]%Z; OEach (fun _ => true); OGet 1]
+    = [RUnit; RUnit; RUnit; RUnit; RList [4;1;2;3]%Z; RVal 1%Z] /\
+  (* Remove:   [1,2,3,4], c at 1, c.Remove()  -> 2, [1,3,4], c at 1 (the element after) *)
+  run Z 0%Z (init Z 0%Z) [OEnd; OAdd 0 [1;2;3;4]%Z; OAt 1; ORemove 1; OEach (fun _ => true); OGet 1]
+    = [RUnit; RUnit; RUnit; RVal 2%Z; RList [1;3;4]%Z; RVal 3%Z] /\
+  (* Truncate: [1,2,3,4], c at 2, c.Truncate() -> [1,2], c.AtEnd() *)
+  run Z 0%Z (init Z 0%Z) [OEnd; OAdd 0 [1;2;3;4]%Z; OAt 2; OTruncate 1; OEach (fun _ => true); OAtEnd 1]
+    = [RUnit; RUnit; RUnit; RUnit; RList [1;2]%Z; RBool true].
+Proof. vm_compute. repeat split; reflexivity. Qed.
+Print Assumptions C10_doc_pictures.
+
 (* The reference's Add ("a shorthand for Push followed by Next", folded over the values) has the
    closed form of the documentation picture: through a cursor at index i <= len the values appear
    at i.. in order, the rest keeps its order, and the cursor ends just after them. *)
@@ -55,6 +105,18 @@ Print Assumptions C10_add_picture.
 
 Example C10_add_picture_ex : nth_error [At 0; At 1] 1 = Some (At 1) /\ 1 <= length [1;2;3]%Z.
 Proof. split; [reflexivity|cbn; auto]. Qed.
+
+(* Machine ints in At / Peek (list and queue): a negative offset panics before any arithmetic; a
+   non-negative counter is only decremented while non-zero, so it stays within [0, n] -- in
+   range for every 64-bit argument. *)
+Theorem C10_at_counter_in_range : forall n : Z, MlinkProofsInt.int64 n -> at_neg n = false -> at_found n = false ->
+  MlinkProofsInt.int64 (at_dec n) /\ at_neg (at_dec n) = false /\ (at_dec n < n)%Z.
+Proof. exact at_counter_in_range. Qed.
+Print Assumptions C10_at_counter_in_range.
+
+Example C10_at_counter_in_range_ex :
+  MlinkProofsInt.int64 (2 ^ 63 - 1)%Z /\ at_neg (2 ^ 63 - 1)%Z = false /\ at_found (2 ^ 63 - 1)%Z = false.
+Proof. vm_compute. repeat split; intros; discriminate. Qed.
 
 (* Invariant of every reachable state, tied to the reference state [R (heap, preds) (list, positions)]:
    there is a duplicate-free chain ch = 0 :: c from the sentinel to nil such that every cell of
@@ -87,21 +149,81 @@ Example C10_stale_cursor_panics_ex :
 Proof. split; vm_compute; reflexivity. Qed.
 
 (* The same at heap level, without any invariant: whenever a cursor's pred is self-linked. *)
-Theorem C10_stale_refuses : forall (T : Type) (zero : T) (h : heap T) (cs : list nat) (k a : nat) (o : op T),
-  nth_error cs k = Some a -> a < length h -> lnk T h a = Ptr a -> uses_cursor T o k ->
+Theorem C10_stale_refuses : forall (T : Type) (zero : T) (h : heap T) (cs : list link) (k a : nat) (o : op T),
+  nth_error cs k = Some (Ptr a) -> a < length h -> lnk T h a = Ptr a -> uses_cursor T o k ->
   step T zero (h, cs) o = ((h, cs), RPanic InvalidCursor).
 Proof. exact stale_refuses. Qed.
 Print Assumptions C10_stale_refuses.
 
 Example C10_stale_refuses_ex :
   let h := [(0, Ptr 2); (1, Ptr 1); (2, Nil)]%Z in
-  nth_error [1] 0 = Some 1 /\ 1 < length h /\ lnk Z h 1 = Ptr 1 /\ uses_cursor Z (OPush 0 5%Z) 0.
+  nth_error [Ptr 1] 0 = Some (Ptr 1) /\ 1 < length h /\ lnk Z h 1 = Ptr 1 /\ uses_cursor Z (OPush 0 5%Z) 0.
 Proof. vm_compute. repeat split; auto. Qed.
+
+(* The property's own wording, instantiated.  (1) After any history in which cursor kr designates
+   an existing element (index i) and cursor k designates the next one: once kr.Remove() has run,
+   EVERY use of k panics invalid-cursor and leaves heap and all cursors as they were. *)
+Theorem C10_removed_neighbour_panics : forall (T : Type) (zero : T) (ops : list (op T)) (kr k i : nat) (o : op T),
+  let a := arun_state T zero (ainit T) ops in
+  nth_error (snd a) kr = Some (At i) -> i < length (fst a) ->
+  nth_error (snd a) k = Some (At (S i)) -> uses_cursor T o k ->
+  let m' := run_state T zero (init T zero) (ops ++ [ORemove kr]) in
+  step T zero m' o = (m', RPanic InvalidCursor).
+Proof. exact removed_neighbour_panics. Qed.
+Print Assumptions C10_removed_neighbour_panics.
+
+Example C10_removed_neighbour_panics_ex :
+  let a := arun_state Z 0%Z (ainit Z) [OEnd; OAdd 0 [1;2;3]%Z; OAt 1; OAt 2] in
+  nth_error (snd a) 1 = Some (At 1) /\ 1 < length (fst a) /\ nth_error (snd a) 2 = Some (At 2) /\ uses_cursor Z (OGet 2) 2.
+Proof. vm_compute. repeat split; auto. Qed.
+
+(* (2) kt.Truncate() at index i: every cursor at an index j > i (the end position included). *)
+Theorem C10_truncated_tail_panics : forall (T : Type) (zero : T) (ops : list (op T)) (kt k i j : nat) (o : op T),
+  let a := arun_state T zero (ainit T) ops in
+  nth_error (snd a) kt = Some (At i) -> nth_error (snd a) k = Some (At j) -> i < j -> uses_cursor T o k ->
+  let m' := run_state T zero (init T zero) (ops ++ [OTruncate kt]) in
+  step T zero m' o = (m', RPanic InvalidCursor).
+Proof. exact truncated_tail_panics. Qed.
+Print Assumptions C10_truncated_tail_panics.
+
+Example C10_truncated_tail_panics_ex :
+  let a := arun_state Z 0%Z (ainit Z) [OEnd; OAdd 0 [1;2;3]%Z; OAt 1] in
+  nth_error (snd a) 1 = Some (At 1) /\ nth_error (snd a) 0 = Some (At 3) /\ 1 < 3 /\ uses_cursor Z (OAdd 0 [7]%Z) 0.
+Proof. vm_compute. repeat split; auto. Qed.
+
+(* (3) List.Clear(): every cursor at an index j > 0.  (A cursor at index 0 holds the list's own
+   sentinel as pred; it is not after any discarded element and stays valid, at the end of the
+   now empty list -- C10_list_refinement, after_truncate 0.) *)
+Theorem C10_cleared_panics : forall (T : Type) (zero : T) (ops : list (op T)) (k j : nat) (o : op T),
+  let a := arun_state T zero (ainit T) ops in
+  nth_error (snd a) k = Some (At j) -> 0 < j -> uses_cursor T o k ->
+  let m' := run_state T zero (init T zero) (ops ++ [OClear]) in
+  step T zero m' o = (m', RPanic InvalidCursor).
+Proof. exact cleared_panics. Qed.
+Print Assumptions C10_cleared_panics.
+
+Example C10_cleared_panics_ex :
+  let a := arun_state Z 0%Z (ainit Z) [OEnd; OAdd 0 [1;2]%Z] in
+  nth_error (snd a) 0 = Some (At 2) /\ 0 < 2 /\ uses_cursor Z (ORemove 0) 0.
+Proof. vm_compute. repeat split; auto. Qed.
+
+(* A Cursor that was never positioned (nil pointer / zero value, pred == nil; also every copy of
+   one): after any history every use panics with a nil dereference and changes nothing. *)
+Theorem C10_nil_cursor_panics : forall (T : Type) (zero : T) (ops : list (op T)) (k : nat) (o : op T),
+  nth_error (snd (arun_state T zero (ainit T) ops)) k = Some NoPred -> uses_cursor T o k ->
+  step T zero (run_state T zero (init T zero) ops) o = (run_state T zero (init T zero) ops, RPanic NilDeref).
+Proof. exact nil_cursor_panics. Qed.
+Print Assumptions C10_nil_cursor_panics.
+
+Example C10_nil_cursor_panics_ex :
+  nth_error (snd (arun_state Z 0%Z (ainit Z) [OEnd; OAdd 0 [1;2]%Z; ONilCursor; OCopy 1])) 2 = Some NoPred
+  /\ uses_cursor Z (OTruncate 2) 2.
+Proof. split; vm_compute; reflexivity. Qed.
 
 (* F7, for the record: with Truncate as it was before repair e389bb4 (no checkValid), Truncate
    through a cursor whose pred is self-linked never returns, whatever the fuel ... *)
-Theorem C10_F7_pinned_truncate_hangs : forall (T : Type) (zero : T) (h : heap T) (cs : list nat) (k a : nat),
-  nth_error cs k = Some a -> a < length h -> lnk T h a = Ptr a ->
+Theorem C10_F7_pinned_truncate_hangs : forall (T : Type) (zero : T) (h : heap T) (cs : list link) (k a : nat),
+  nth_error cs k = Some (Ptr a) -> a < length h -> lnk T h a = Ptr a ->
   step_pinned T zero (h, cs) (OTruncate k) = ((h, cs), RHang).
 Proof. exact pinned_truncate_hangs. Qed.
 Print Assumptions C10_F7_pinned_truncate_hangs.
